@@ -29,7 +29,7 @@ func init() {
 }
 
 func reflectCall(v ssa.Value, method string) *ssa.Call {
-	cl, ok := core.Canon(v).(*ssa.Call)
+	cl, ok := opCanon(v).(*ssa.Call)
 	if !ok {
 		return nil
 	}
@@ -49,11 +49,11 @@ func throughElem(v ssa.Value) ssa.Value {
 		}
 		v = cl.Call.Args[0]
 	}
-	return core.Canon(v)
+	return opCanon(v)
 }
 
 func isReflectNew(v ssa.Value) *ssa.Call {
-	cl, ok := core.Canon(v).(*ssa.Call)
+	cl, ok := opCanon(v).(*ssa.Call)
 	if !ok {
 		return nil
 	}
@@ -71,7 +71,7 @@ func isReflectNew(v ssa.Value) *ssa.Call {
 			if len(r.Results) != 1 {
 				return nil
 			}
-			in, ok := core.Canon(core.RetVal(r, 0)).(*ssa.Call)
+			in, ok := opCanon(core.RetVal(r, 0)).(*ssa.Call)
 			if !ok {
 				return nil
 			}
@@ -116,7 +116,7 @@ func runC20(c *core.Ctx) {
 				// populated: a convertFrom(nw, src) call on every path between New and the store
 				var pop *ssa.Call
 				for _, cc := range core.Calls(fn) {
-					if core.IsCallTo(cc, conv) && core.Canon(cc.Common().Args[0]) == ssa.Value(nw) {
+					if core.IsCallTo(cc, conv) && opCanon(convArg(cc, 0)) == ssa.Value(nw) {
 						if cv, ok := cc.(*ssa.Call); ok {
 							pop = cv
 						}
@@ -132,12 +132,12 @@ func runC20(c *core.Ctx) {
 					bad = "the holder of the map " + role + " is allocated outside the loop that stores it: one holder is reused for all entries, so entries whose " + role + "s contain slices, maps or structs alias or leak into each other"
 				}
 				if bad == "" && pop != nil {
-					src := core.Canon(pop.Call.Args[1])
+					src := opCanon(convArg(pop, 1))
 					if role == "key" {
 						srcKey = src
 					} else {
 						mi := reflectCall(src, "MapIndex")
-						if mi == nil || srcKey == nil || core.Canon(mi.Call.Args[1]) != srcKey {
+						if mi == nil || srcKey == nil || opCanon(mi.Call.Args[1]) != srcKey {
 							bad = "the value converted is not source.MapIndex(k) for the same k as the key: keys and values get mixed up"
 						}
 					}
@@ -164,10 +164,10 @@ func runC20(c *core.Ctx) {
 			c.Undecided("C20.rejects", "type/conversion."+spec.name, token.NoPos, "anchor not found")
 			continue
 		}
-		w := ssa.Value(fn.Params[1])
+		w := convOperand(fn, 1)
 		isWKind := func(v ssa.Value) bool {
 			cl := reflectCall(core.StripConv(v), "Kind")
-			return cl != nil && core.Canon(cl.Call.Args[0]) == w
+			return cl != nil && opCanon(cl.Call.Args[0]) == w
 		}
 		isK := func(v ssa.Value) bool { k, ok := core.ConstInt(v); return ok && k == spec.kind }
 		bad := ""
@@ -189,7 +189,7 @@ func runC20(c *core.Ctx) {
 	{
 		asInt := c.Func("type/conversion", "", "AsInt64")
 		isOK := func(v ssa.Value) bool {
-			e, ok := core.Canon(v).(*ssa.Extract)
+			e, ok := opCanon(v).(*ssa.Extract)
 			if !ok || e.Index != 1 {
 				return false
 			}
@@ -321,7 +321,7 @@ func runC20(c *core.Ctx) {
 				c.Fail("C20.errors", key, call.Pos(), "the error of "+f.Name()+" is dropped: an element that cannot be converted is left at its zero value and the conversion reports success")
 				continue
 			}
-			isE := func(v ssa.Value) bool { return core.Canon(v) == e }
+			isE := func(v ssa.Value) bool { return opCanon(v) == e }
 			r := core.ReachFrom(core.After(cv), nil, core.CutEstablishing(core.Eq(isE, core.IsNilConst)))
 			bad := ""
 			for _, ret := range core.Returns(fn) {
@@ -354,11 +354,10 @@ func scalarUnit(c *core.Ctx, conv *ssa.Function) *ssa.Function {
 	}
 	for _, call := range core.Calls(conv) {
 		g := core.StaticCallee(call)
-		if g == nil || !inRepo(g) || g == conv || len(g.Params) != 2 || !has(g) {
+		if g == nil || !inRepo(g) || g == conv || !sameOperandForm(g, conv) || !has(g) {
 			continue
 		}
-		a := call.Common().Args
-		if core.Canon(a[0]) == ssa.Value(conv.Params[0]) && (core.Canon(a[1]) == ssa.Value(conv.Params[1])) {
+		if opCanon(convArg(call, 0)) == convOperand(conv, 0) && opCanon(convArg(call, 1)) == convOperand(conv, 1) {
 			return g
 		}
 	}
@@ -382,10 +381,10 @@ func okReturn(r *ssa.Return) bool {
 func ruleKindGuards(c *core.Ctx, outer *ssa.Function) {
 	const rule = "C20.kind-guards"
 	conv := scalarUnit(c, outer)
-	w := ssa.Value(conv.Params[1])
+	w := convOperand(conv, 1)
 	isWKind := func(v ssa.Value) bool {
 		cl := reflectCall(core.StripConv(v), "Kind")
-		return cl != nil && core.Canon(cl.Call.Args[0]) == w
+		return cl != nil && opCanon(cl.Call.Args[0]) == w
 	}
 	kindIs := func(ks ...int64) core.EdgeMatcher {
 		var ms []core.EdgeMatcher
@@ -398,12 +397,12 @@ func ruleKindGuards(c *core.Ctx, outer *ssa.Function) {
 	}
 	asInt := c.Func("type/conversion", "", "AsInt64")
 	isAsIntOK := func(v ssa.Value) bool {
-		e, ok := core.Canon(v).(*ssa.Extract)
+		e, ok := opCanon(v).(*ssa.Extract)
 		if !ok || e.Index != 1 {
 			return false
 		}
 		cl, ok := e.Tuple.(*ssa.Call)
-		return ok && asInt != nil && core.IsCallTo(cl, asInt) && core.Canon(cl.Call.Args[0]) == w
+		return ok && asInt != nil && core.IsCallTo(cl, asInt) && opCanon(cl.Call.Args[0]) == w
 	}
 	fromAsInt := func(v ssa.Value) bool {
 		e, ok := core.StripConv(v).(*ssa.Extract)
@@ -421,7 +420,7 @@ func ruleKindGuards(c *core.Ctx, outer *ssa.Function) {
 	accessor := func(name string) func(ssa.Value) bool {
 		return func(v ssa.Value) bool {
 			cl := reflectCall(core.StripConv(v), name)
-			return cl != nil && core.Canon(cl.Call.Args[0]) == w
+			return cl != nil && opCanon(cl.Call.Args[0]) == w
 		}
 	}
 	setters := map[string]setter{
@@ -489,7 +488,7 @@ func ruleKindGuards(c *core.Ctx, outer *ssa.Function) {
 	aw := ssa.Value(asInt.Params[0])
 	isAK := func(v ssa.Value) bool {
 		cl := reflectCall(core.StripConv(v), "Kind")
-		return cl != nil && core.Canon(cl.Call.Args[0]) == aw
+		return cl != nil && opCanon(cl.Call.Args[0]) == aw
 	}
 	anyKind := func(ks ...int64) core.EdgeMatcher {
 		var ms []core.EdgeMatcher
@@ -530,21 +529,21 @@ func ruleElementwise(c *core.Ctx, conv *ssa.Function) {
 	const rule = "C20.elementwise"
 	cs := c.Func("type/conversion", "", "convertSlice")
 	if cs != nil {
-		v, w := ssa.Value(cs.Params[0]), ssa.Value(cs.Params[1])
+		v, w := convOperand(cs, 0), convOperand(cs, 1)
 		_ = v
 		bad := "no element conversion found"
 		for _, call := range core.Calls(cs) {
 			if !core.IsCallTo(call, conv) {
 				continue
 			}
-			a, b := call.Common().Args[0], call.Common().Args[1]
+			a, b := convArg(call, 0), convArg(call, 1)
 			ia, ib := reflectCall(a, "Index"), reflectCall(b, "Index")
 			switch {
 			case ia == nil || ib == nil:
 				bad = "elements are not converted Index(i) into Index(i)"
 			case !core.SameValue(ia.Call.Args[1], ib.Call.Args[1]):
 				bad = "destination and source are indexed with different indices"
-			case core.Canon(ib.Call.Args[0]) != w:
+			case opCanon(ib.Call.Args[0]) != w:
 				bad = "the source element is not taken from the source slice"
 			default:
 				bad = ""
@@ -557,13 +556,13 @@ func ruleElementwise(c *core.Ctx, conv *ssa.Function) {
 				ifi := h.Instrs[len(h.Instrs)-1].(*ssa.If)
 				cm, _ := core.CondCmp(ifi.Cond)
 				ln := reflectCall(core.StripConv(cm.Y), "Len")
-				if ln == nil || core.Canon(ln.Call.Args[0]) != w {
+				if ln == nil || opCanon(ln.Call.Args[0]) != w {
 					bad = "the loop does not run over the length of the source"
 				}
 				setLen := false
 				for _, c2 := range core.Calls(cs) {
 					if f := core.StaticCallee(c2); f != nil && core.FuncKey(f) == "reflect.Value.SetLen" {
-						if l2 := reflectCall(core.StripConv(c2.Common().Args[1]), "Len"); l2 != nil && core.Canon(l2.Call.Args[0]) == w {
+						if l2 := reflectCall(core.StripConv(c2.Common().Args[1]), "Len"); l2 != nil && opCanon(l2.Call.Args[0]) == w {
 							setLen = true
 						}
 					}
@@ -582,14 +581,14 @@ func ruleElementwise(c *core.Ctx, conv *ssa.Function) {
 			if !core.IsCallTo(call, conv) {
 				continue
 			}
-			fa, fb := reflectCall(call.Common().Args[0], "Field"), reflectCall(call.Common().Args[1], "Field")
+			fa, fb := reflectCall(convArg(call, 0), "Field"), reflectCall(convArg(call, 1), "Field")
 			if fa == nil || fb == nil {
 				bad = "fields are not converted Field(i) <- Field(j)"
 				continue
 			}
 			// guarded by equality of two strings.ToLower(...) results
 			isLower := func(v ssa.Value) bool {
-				cl, ok := core.Canon(v).(*ssa.Call)
+				cl, ok := opCanon(v).(*ssa.Call)
 				return ok && cl.Call.StaticCallee() != nil && core.FuncKey(cl.Call.StaticCallee()) == "strings.ToLower"
 			}
 			isName := func(v ssa.Value) bool {
@@ -598,7 +597,12 @@ func ruleElementwise(c *core.Ctx, conv *ssa.Function) {
 				}
 				// field .Name
 				p := core.AccessPath(v)
-				return len(p.Fields) > 0 && p.Fields[len(p.Fields)-1].Name() == "Name"
+				if len(p.Fields) > 0 && p.Fields[len(p.Fields)-1].Name() == "Name" {
+					return true
+				}
+				// element j of a table of folded names filled beforehand, entry k from the
+				// name of field k, read at the index the source field is taken with
+				return foldedNameEntry(st, v, fb.Call.Args[1], isLower)
 			}
 			if core.Guarded(st, call.(ssa.Instruction), core.Eq(isName, isName)) {
 				bad = ""
@@ -621,7 +625,7 @@ func ruleElementwise(c *core.Ctx, conv *ssa.Function) {
 // successful lookup, by case-folded name, in a map whose every entry maps the
 // folded name of field k of a struct type to k (built in fn or by a helper).
 func nameIndexed(fn *ssa.Function, at ssa.Instruction, fb *ssa.Call, isLower func(ssa.Value) bool) bool {
-	e, ok := core.StripConv(core.Canon(fb.Call.Args[1])).(*ssa.Extract)
+	e, ok := core.StripConv(opCanon(fb.Call.Args[1])).(*ssa.Extract)
 	if !ok || e.Index != 0 {
 		return false
 	}
@@ -632,7 +636,7 @@ func nameIndexed(fn *ssa.Function, at ssa.Instruction, fb *ssa.Call, isLower fun
 	if !core.Guarded(fn, at, core.IsTrue(okOf(lk))) {
 		return false
 	}
-	m := core.Canon(lk.X)
+	m := opCanon(lk.X)
 	builder := fn
 	if cl, ok := m.(*ssa.Call); ok {
 		h := cl.Call.StaticCallee()
@@ -643,7 +647,7 @@ func nameIndexed(fn *ssa.Function, at ssa.Instruction, fb *ssa.Call, isLower fun
 		m = nil
 		for _, r := range core.Returns(h) {
 			if len(r.Results) == 1 {
-				m = core.Canon(core.RetVal(r, 0))
+				m = opCanon(core.RetVal(r, 0))
 			}
 		}
 	}
@@ -654,11 +658,11 @@ func nameIndexed(fn *ssa.Function, at ssa.Instruction, fb *ssa.Call, isLower fun
 	for _, b := range builder.Blocks {
 		for _, in := range b.Instrs {
 			mu, ok := in.(*ssa.MapUpdate)
-			if !ok || core.Canon(mu.Map) != m {
+			if !ok || opCanon(mu.Map) != m {
 				continue
 			}
 			n++
-			key, ok := core.Canon(mu.Key).(*ssa.Call)
+			key, ok := opCanon(mu.Key).(*ssa.Call)
 			if !ok || !isLower(key) || len(key.Call.Args) != 1 {
 				return false
 			}
@@ -675,6 +679,200 @@ func nameIndexed(fn *ssa.Function, at ssa.Instruction, fb *ssa.Call, isLower fun
 				return false
 			}
 			if !core.SameValue(fc.Call.Args[len(fc.Call.Args)-1], mu.Value) {
+				return false
+			}
+		}
+	}
+	return n > 0
+}
+
+// ---------------------------------------------------------------- operands
+//
+// The converters take their destination and their source as two reflect.Value
+// parameters (v, w) or bundled in one small struct passed by value
+// (operands{into, from}).  The rules name them through these three helpers.
+
+// isReflectValue: t is reflect.Value.
+func isReflectValue(t types.Type) bool {
+	n, ok := t.(*types.Named)
+	return ok && n.Obj().Pkg() != nil && n.Obj().Pkg().Path() == "reflect" && n.Obj().Name() == "Value"
+}
+
+// operandStruct: fn takes exactly one parameter, a struct of two reflect.Values.
+func operandStruct(fn *ssa.Function) *ssa.Parameter {
+	if fn == nil || len(fn.Params) != 1 {
+		return nil
+	}
+	st, ok := fn.Params[0].Type().Underlying().(*types.Struct)
+	if !ok || st.NumFields() != 2 || !isReflectValue(st.Field(0).Type()) || !isReflectValue(st.Field(1).Type()) {
+		return nil
+	}
+	return fn.Params[0]
+}
+
+func sameOperandForm(g, conv *ssa.Function) bool {
+	if operandStruct(conv) != nil {
+		return operandStruct(g) != nil
+	}
+	return len(g.Params) == 2
+}
+
+var operandRep = map[*ssa.Parameter][2]ssa.Value{}
+
+// convOperand: operand i (0 destination, 1 source) of converter fn as its body sees it.
+func convOperand(fn *ssa.Function, i int) ssa.Value {
+	if p := operandStruct(fn); p != nil {
+		if r, ok := operandRep[p]; ok && r[i] != nil {
+			return r[i]
+		}
+		var rep [2]ssa.Value
+		for _, b := range fn.Blocks {
+			for _, in := range b.Instrs {
+				if f, ok := in.(*ssa.Field); ok && f.X == ssa.Value(p) && f.Field < 2 && rep[f.Field] == nil {
+					rep[f.Field] = f
+				}
+				if i, ok := operandLoad(in, p); ok && rep[i] == nil {
+					rep[i] = in.(ssa.Value)
+				}
+			}
+		}
+		operandRep[p] = rep
+		if rep[i] != nil {
+			return rep[i]
+		}
+		return p
+	}
+	if i < len(fn.Params) {
+		return fn.Params[i]
+	}
+	return nil
+}
+
+// opCanon: core.Canon, with every extraction of one field of an operand struct
+// parameter mapped to one representative value.
+func opCanon(v ssa.Value) ssa.Value {
+	w := core.Canon(v)
+	if f, ok := w.(*ssa.Field); ok && f.Field < 2 {
+		if p, ok := f.X.(*ssa.Parameter); ok && p.Parent() != nil && operandStruct(p.Parent()) == p {
+			return convOperand(p.Parent(), f.Field)
+		}
+	}
+	if in, ok := w.(ssa.Instruction); ok && in.Parent() != nil {
+		if p := operandStruct(in.Parent()); p != nil {
+			if i, ok := operandLoad(in, p); ok {
+				return convOperand(in.Parent(), i)
+			}
+		}
+	}
+	return w
+}
+
+// operandLoad: in is `*(&t.f)` where t is the local copy go/ssa makes of the
+// operand struct parameter p (t = local; *t = p); returns f.
+func operandLoad(in ssa.Instruction, p *ssa.Parameter) (int, bool) {
+	ld, ok := in.(*ssa.UnOp)
+	if !ok || ld.Op != token.MUL {
+		return 0, false
+	}
+	fa, ok := ld.X.(*ssa.FieldAddr)
+	if !ok || fa.Field > 1 {
+		return 0, false
+	}
+	al, ok := fa.X.(*ssa.Alloc)
+	if !ok {
+		return 0, false
+	}
+	n := 0
+	fromParam := false
+	for _, r := range core.Referrers(al) {
+		if st, ok := r.(*ssa.Store); ok && st.Addr == ssa.Value(al) {
+			n++
+			fromParam = st.Val == ssa.Value(p)
+		}
+		if fa2, ok := r.(*ssa.FieldAddr); ok {
+			for _, u := range core.Referrers(fa2) {
+				if st, ok := u.(*ssa.Store); ok && st.Addr == ssa.Value(fa2) {
+					return 0, false // the copy is modified
+				}
+			}
+		}
+	}
+	return fa.Field, n == 1 && fromParam
+}
+
+// convArg: operand i at a call of a converter: the i-th argument, or the value
+// given to field i of the operand struct built for the call.
+func convArg(call ssa.CallInstruction, i int) ssa.Value {
+	args := call.Common().Args
+	if len(args) == 1 {
+		if st, ok := args[0].Type().Underlying().(*types.Struct); ok && st.NumFields() == 2 && isReflectValue(st.Field(0).Type()) {
+			switch x := args[0].(type) {
+			case *ssa.UnOp:
+				if al, ok := x.X.(*ssa.Alloc); ok && x.Op == token.MUL {
+					if d := core.SingleFieldDef(al, i); d != nil {
+						return d
+					}
+					// a store per field of the literal
+					for _, r := range core.Referrers(al) {
+						if fa, ok := r.(*ssa.FieldAddr); ok && fa.Field == i {
+							for _, u := range core.Referrers(fa) {
+								if s, ok := u.(*ssa.Store); ok && s.Addr == ssa.Value(fa) {
+									return s.Val
+								}
+							}
+						}
+					}
+				}
+			}
+			return args[0]
+		}
+	}
+	if i < len(args) {
+		return args[i]
+	}
+	return nil
+}
+
+// foldedNameEntry: v is names[j] where names is a slice made in fn, every store
+// names[k] = x has x a case-folded name of Field(k), and j is the index idx.
+func foldedNameEntry(fn *ssa.Function, v, idx ssa.Value, isLower func(ssa.Value) bool) bool {
+	ld, ok := core.Canon(v).(*ssa.UnOp)
+	if !ok || ld.Op != token.MUL {
+		return false
+	}
+	ia, ok := ld.X.(*ssa.IndexAddr)
+	if !ok || !core.SameValue(ia.Index, idx) {
+		return false
+	}
+	tbl, ok := core.Canon(ia.X).(*ssa.MakeSlice)
+	if !ok || tbl.Parent() != fn {
+		return false
+	}
+	n := 0
+	for _, b := range fn.Blocks {
+		for _, in := range b.Instrs {
+			st, ok := in.(*ssa.Store)
+			if !ok {
+				continue
+			}
+			ia2, ok := st.Addr.(*ssa.IndexAddr)
+			if !ok || core.Canon(ia2.X) != ssa.Value(tbl) {
+				continue
+			}
+			n++
+			key, ok := core.Canon(st.Val).(*ssa.Call)
+			if !ok || !isLower(key) || len(key.Call.Args) != 1 {
+				return false
+			}
+			p := core.AccessPath(key.Call.Args[0])
+			if len(p.Fields) == 0 || p.Fields[len(p.Fields)-1].Name() != "Name" {
+				return false
+			}
+			fc, _ := core.CallResult(core.RootOf(key.Call.Args[0]))
+			if fc == nil || len(fc.Call.Args) == 0 || !strings.HasSuffix(core.CalleeName(fc), "Field") {
+				return false
+			}
+			if !core.SameValue(fc.Call.Args[len(fc.Call.Args)-1], ia2.Index) {
 				return false
 			}
 		}
